@@ -47,6 +47,14 @@ impl Delay {
             }
         }
         let boxed = rng.chance(0.12);
+        // 12 %: the instance had an earlier life - another in-range ratio, a few chunks - and was reset()
+        // before the clip; 15 % of the sinc cases change the chunk size between calls while the clip streams
+        let reuse: Option<(Option<f64>, usize)> = if !boxed && rng.chance(0.12) {
+            Some((if cfg.kind.is_async() && cfg.max_rel > 1.0 && rng.chance(0.7) { Some(gen_in_range_ratio(&mut rng, &cfg)) } else { None }, rng.ui(1, 6)))
+        } else {
+            None
+        };
+        let resize: Option<u64> = if !boxed && cfg.kind.is_sinc() && rng.chance(0.15) { Some(rng.next()) } else { None };
         let desc = J::obj()
             .with("sample", J::s(T::NAME))
             .with("cfg", cfg.json())
@@ -54,7 +62,9 @@ impl Delay {
             .with("pulse_centre_input_frame", J::f(n0))
             .with("pulse_sigma", J::f(sigma))
             .with("clip_length", J::u(clip_len))
-            .with("through_boxed_vecresampler", J::b(boxed));
+            .with("through_boxed_vecresampler", J::b(boxed))
+            .with("earlier_life_ratio_and_calls_before_reset", reuse.map(|(v, k)| J::Arr(vec![v.map(J::f).unwrap_or(J::Null), J::u(k)])).unwrap_or(J::Null))
+            .with("chunk_size_schedule_seed", resize.map(|v| J::Int(v as i128)).unwrap_or(J::Null));
         set_desc(&desc);
         let mut cr = CaseResult { desc, ..Default::default() };
         if ctx.describe {
@@ -83,20 +93,37 @@ impl Delay {
             st.add("cases_through_boxed_vecresampler", 1.0);
         }
         run.check_alloc = false;
+        let op = Op::Proc { path: Path::Exact, slack_in: 0, slack_out: 0, mask: None, empty_inactive: false };
+        if let Some((v, k)) = reuse {
+            if let Some(v) = v {
+                run.step(&Op::SetRatio { v, ramp: rng.bool(), rel: false });
+            }
+            for _ in 0..k {
+                run.step(&op);
+            }
+            run.step(&Op::Reset);
+            run.pos = 0;
+            st.add("clips_after_an_earlier_life_and_reset", 1.0);
+        }
         if let Some(v) = pre_ratio {
             run.step(&Op::SetRatio { v, ramp: false, rel: false });
         }
         let delay = run.drv.getters().delay;
         let want_out = ((clip_len + tail) as f64 * r) as usize + delay + 8;
         let mut out: Vec<f64> = Vec::with_capacity(want_out + 4096);
-        let op = Op::Proc { path: Path::Exact, slack_in: 0, slack_out: 0, mask: None, empty_inactive: false };
         let mut calls = 0;
+        let mut rs = resize.map(|s| Rng::derive(&[s, 0x5153]));
         // push the clip, then zeros, until the recipe's frames (and the whole pulse) have come out;
         // the input cap allows for block-wise emission of the synchronous types
         let keep = (clip_len as f64 * r) as usize;
         let need_out = delay + keep + (r * 8.0) as usize + 16;
         let in_cap = clip_len + tail + 4 * (flen + cfg.chunk) + (need_out as f64 / r) as usize;
         while (out.len() < need_out || (run.pos as usize) < clip_len + tail) && (run.pos as usize) < in_cap && calls < 3_000_000 {
+            if let Some(r) = rs.as_mut() {
+                if r.chance(0.3) {
+                    run.step(&Op::SetChunk(r.logi((cfg.chunk / 16).max(1), cfg.chunk)));
+                }
+            }
             let so = run.step(&op);
             calls += 1;
             match so.res {
